@@ -400,6 +400,30 @@ class Interp:
                 break
         return count
 
+    async def op_COLLECT(self, act, pc, names, scripts):
+        """await collect(*activities); the i-th activity is named names[i]"""
+        coros = [self.activity(n, sc) for n, sc in zip(names, scripts)]
+        return await collect(*coros)
+
+    async def op_FIRST(self, act, pc, names, scripts, count, bodies, stop_after=None):
+        """async for over first(*activities, count=count); runs bodies[i] after the i-th result;
+        breaks out after stop_after results (None: never)"""
+        ctx = self.ctx
+        coros = [self.activity(n, sc) for n, sc in zip(names, scripts)]
+        got = []
+        kw = {} if count == 'default' else {'count': count}
+        try:
+            async for result in first(*coros, **kw):
+                ctx.rec('first-item', act, pc, result)
+                got.append(result)
+                body = bodies[len(got) - 1] if len(got) - 1 < len(bodies) else []
+                await self.block(act, body, pc + ('b', len(got)))
+                if stop_after is not None and len(got) >= stop_after:
+                    break
+        finally:
+            ctx.rec('first-leave', act, pc, list(got))
+        return got
+
     # -- control ---------------------------------------------------------------------------------
     async def op_RAISE(self, act, pc, exc, tag=None):
         e = EXC[exc]('%s@%s' % (tag if tag is not None else exc, act))
